@@ -19,6 +19,10 @@ EXTRA_VALID = [
     'schema { query: Root } type Root { a: Int } type Mutation { m: Int } type Subscription { s: Int } type Query { q: Int }',
     'schema { query: Query mutation: Writes } type Query { q: Mutation } type Writes { w: Int } type Mutation { m: Int }',
     'schema { query: Root } type Root { a: Int } type Mutation { m: Int } extend schema { mutation: Writes } type Writes { w: Int }',
+    'type Query { a: Int @deprecated(reason: "") b: E @deprecated } enum E { X @deprecated(reason: "") Y @deprecated(reason: "No longer supported") Z }',
+    # an explicit null default is a default (distinct from no default), also on members of types that extensions rebuild
+    'directive @d(o: String = null, i: In = null) on FIELD type Query { f(a: String = null, i: In = null, l: [Int!] = null, n: Int): Int } '
+    'input In { x: Int = null y: [Int] = null z: In = null w: Int } extend type Query { g(b: ID = null): Int } extend input In { v: Float = null }',
 ]
 
 # (label, SDL): must be rejected with one of the library's schema / SDL errors
@@ -143,6 +147,47 @@ def check(tier, seed):
                     bad = S6.closed(schema)
                     if bad:
                         run.violation("build_schema:type-references-are-the-registered-types", "; ".join(bad[:3]), dict(w, dangling=bad[:5]), True)
+    # supplied types that the document itself does not define: referenced from a definition, only from an extension, only from a directive
+    from py_gql.schema import Field, InputField, InputObjectType, ObjectType, String
+    for label, text in [
+        ("definition", "type Query { at: Date }"),
+        ("extension-field", "type Query { a: Int } extend type Query { at: Date }"),
+        ("extension-argument", "type Query { a: Int } extend type Query { at(d: Date, r: Range): Int }"),
+        ("extension-interface", "interface I { a: Int } type Query implements I { a: Int at: Date } extend interface I { at: Date }"),
+        ("extension-input", "input In { a: Int } type Query { f(i: In): Int } extend input In { r: Range d: [Date!] }"),
+        ("extension-union", "type A { a: Int } union U = A type Query { u: U } extend union U = Extra"),
+        ("extension-implements", "type Query { a: Int x: Extra } interface J { e: String } extend type Query implements J { e: String }"),
+        ("directive-definition", "directive @d(r: Range) on FIELD type Query { a: Int }"),
+    ]:
+        for extra_ext in ("", " extend type Query { zz: Int }"):
+            n += 1
+            supplied = [ScalarType("Date", serialize=str, parse=str), InputObjectType("Range", [InputField("lo", String)]),
+                        ObjectType("Extra", [Field("e", String)])]
+            w = {"sdl": text + extra_ext, "additional_types": [t.name for t in supplied], "referenced_from": label}
+            try:
+                schema = build_schema(text + extra_ext, additional_types=supplied)
+                schema.validate()
+            except GraphQLError as e:
+                run.violation("build_schema:accepts-valid-documents", "a document that is valid given the supplied additional types is rejected: %s: %s"
+                              % (type(e).__name__, e), dict(w, error="%s: %s" % (type(e).__name__, e)), True)
+                continue
+            except Exception as e:
+                run.violation("build_schema:only-schema-errors", "build_schema raised %r" % (e,), dict(w, exc=type(e).__name__), True)
+                continue
+            nontrivial += 1
+            import re as _re
+            for t in supplied:
+                used = _re.search(r"\b%s\b" % t.name, text) is not None
+                got_t = schema.types.get(t.name)
+                # (the object itself may be rebuilt when extensions are merged: what must survive is its kind, members and behaviour)
+                same = type(got_t) is type(t) and [f.name for f in getattr(got_t, "fields", [])] == [f.name for f in getattr(t, "fields", [])] and (
+                    not isinstance(t, ScalarType) or (got_t.serialize(5), got_t.parse("x")) == (t.serialize(5), t.parse("x")))
+                if used and not same:
+                    run.violation("build_schema:supplied-types-are-used-as-given", "the supplied type %s is referenced by the document but the schema holds %r under that name"
+                                  % (t.name, got_t), dict(w, type=t.name), True)
+            bad = S6.closed(schema)
+            if bad:
+                run.violation("build_schema:type-references-are-the-registered-types", "; ".join(bad[:3]), dict(w, dangling=bad[:5]), True)
     for label, sdl in INVALID_SDL:
         for perm in range(2):
             text = sdl
